@@ -24,6 +24,11 @@ Definition clause_C11e (cl : list client) (cfg : config) (f : flowst) (o : op) (
   if negb (obs_obtains x) then 0 else
   match o with
   | OpAuthorize r =>
+      (* whatever form the request took: an access token handed out by the authorization endpoint is
+         DPoP-bound where DPoP (server or client) or some binding is required - read off the response *)
+      if andb (match x with Out (ONav _ _ nv) => andb (negb (is_nil (n_at nv))) (negb (n_dpop nv)) | _ => false end)
+              (orb (cf_dpop_required cfg) (orb (andb (cf_dpop_enabled cfg) (cflag cl (ar_client r) c_dpop_required)) (cf_binding_required cfg)))
+      then (if cf_binding_required cfg then 9 else 7) else
       if direct r then 0 else
       match eff_params cfg f r with
       | Some p =>
